@@ -85,7 +85,7 @@ func (self *BinaryConv) do(ctx context.Context, src []byte, desc *thrift.TypeDes
 	}
 
 	if desc.Type() != thrift.STRUCT {
-		return self.doRecurse(ctx, desc, out, resp, &p)
+		return self.doRecurse(ctx, desc, out, resp, &p, thrift.MaxSkipDepth)
 	}
 
 	_, e := p.ReadStructBegin()
@@ -135,7 +135,7 @@ func (self *BinaryConv) do(ctx context.Context, src []byte, desc *thrift.TypeDes
 		restart := p.Read
 
 		if resp != nil && self.opts.EnableHttpMapping && field.HTTPMappings() != nil {
-			ok, err := self.writeHttpValue(ctx, resp, &p, field)
+			ok, err := self.writeHttpValue(ctx, resp, &p, field, thrift.MaxSkipDepth-1)
 			if err != nil {
 				return unwrapError(fmt.Sprintf("mapping field %s of STRUCT %s failed", field.Name(), desc.Name()), err)
 			}
@@ -169,7 +169,7 @@ func (self *BinaryConv) do(ctx context.Context, src []byte, desc *thrift.TypeDes
 				return unwrapError(fmt.Sprintf("mapping field %s of STRUCT %s failed", field.Name(), desc.Type()), err)
 			}
 		} else {
-			err = self.doRecurse(ctx, field.Type(), out, resp, &p)
+			err = self.doRecurse(ctx, field.Type(), out, resp, &p, thrift.MaxSkipDepth-1)
 			if err != nil {
 				return unwrapError(fmt.Sprintf("converting field %s of STRUCT %s failed", field.Name(), desc.Type()), err)
 			}
@@ -193,8 +193,12 @@ func (self *BinaryConv) do(ctx context.Context, src []byte, desc *thrift.TypeDes
 	return err
 }
 
-func (self *BinaryConv) doRecurse(ctx context.Context, desc *thrift.TypeDescriptor, out *[]byte, resp http.ResponseSetter, p *thrift.BinaryProtocol) (err error) {
+func (self *BinaryConv) doRecurse(ctx context.Context, desc *thrift.TypeDescriptor, out *[]byte, resp http.ResponseSetter, p *thrift.BinaryProtocol, maxDepth int) (err error) {
 	tt := desc.Type()
+	if maxDepth <= 0 && tt.IsComplex() {
+		// same limit as for skipping a value
+		return wrapError(meta.ErrStackOverflow, "", nil)
+	}
 	switch tt {
 	case thrift.BOOL:
 		v, e := p.ReadBool()
@@ -294,7 +298,7 @@ func (self *BinaryConv) doRecurse(ctx context.Context, desc *thrift.TypeDescript
 			restart := p.Read
 
 			if resp != nil && self.opts.EnableHttpMapping && field.HTTPMappings() != nil {
-				ok, err := self.writeHttpValue(ctx, resp, p, field)
+				ok, err := self.writeHttpValue(ctx, resp, p, field, maxDepth-1)
 				if err != nil {
 					return unwrapError(fmt.Sprintf("mapping field %s of STRUCT %s failed", field.Name(), desc.Name()), err)
 				}
@@ -329,7 +333,7 @@ func (self *BinaryConv) doRecurse(ctx context.Context, desc *thrift.TypeDescript
 				if field.Type().Type() == thrift.STRUCT {
 					nresp = resp
 				}
-				err = self.doRecurse(ctx, field.Type(), out, nresp, p)
+				err = self.doRecurse(ctx, field.Type(), out, nresp, p, maxDepth-1)
 				if err != nil {
 					return unwrapError(fmt.Sprintf("converting field %s of STRUCT %s failed", field.Name(), desc.Type()), err)
 				}
@@ -362,7 +366,7 @@ func (self *BinaryConv) doRecurse(ctx context.Context, desc *thrift.TypeDescript
 				return wrapError(meta.ErrConvert, "", err)
 			}
 			*out = json.EncodeObjectColon(*out)
-			err = self.doRecurse(ctx, desc.Elem(), out, nil, p)
+			err = self.doRecurse(ctx, desc.Elem(), out, nil, p, maxDepth-1)
 			if err != nil {
 				return unwrapError(fmt.Sprintf("converting %dth element of MAP failed", i), err)
 			}
@@ -385,7 +389,7 @@ func (self *BinaryConv) doRecurse(ctx context.Context, desc *thrift.TypeDescript
 			if i != 0 {
 				*out = json.EncodeArrayComma(*out)
 			}
-			err = self.doRecurse(ctx, desc.Elem(), out, nil, p)
+			err = self.doRecurse(ctx, desc.Elem(), out, nil, p, maxDepth-1)
 			if err != nil {
 				return unwrapError(fmt.Sprintf("converting %dth element of SET failed", i), err)
 			}
@@ -415,7 +419,7 @@ func (self *BinaryConv) handleUnsets(b *thrift.RequiresBitmap, desc *thrift.Stru
 			}
 			// convert it into http
 			var err error
-			ok, err = self.writeHttpValue(ctx, resp, &p, field)
+			ok, err = self.writeHttpValue(ctx, resp, &p, field, thrift.MaxSkipDepth)
 			if err != nil {
 				return err
 			}
@@ -517,7 +521,7 @@ func (self *BinaryConv) buildinTypeToKey(p *thrift.BinaryProtocol, dest *thrift.
 	return nil
 }
 
-func (self *BinaryConv) writeHttpValue(ctx context.Context, resp http.ResponseSetter, p *thrift.BinaryProtocol, field *thrift.FieldDescriptor) (ok bool, err error) {
+func (self *BinaryConv) writeHttpValue(ctx context.Context, resp http.ResponseSetter, p *thrift.BinaryProtocol, field *thrift.FieldDescriptor, maxDepth int) (ok bool, err error) {
 	var thriftVal []byte
 	var jsonVal []byte
 	var textVal []byte
@@ -571,7 +575,7 @@ func (self *BinaryConv) writeHttpValue(ctx context.Context, resp http.ResponseSe
 			// for nested type, convert it to a new JSON string
 			if jsonVal == nil {
 				tmp := make([]byte, 0, conv.DefaulHttpValueBufferSizeForJSON)
-				err := self.doRecurse(ctx, field.Type(), &tmp, resp, p)
+				err := self.doRecurse(ctx, field.Type(), &tmp, resp, p, maxDepth)
 				if err != nil {
 					return false, unwrapError(fmt.Sprintf("mapping field %s failed, thrift pos:%d", field.Name(), p.Read), err)
 				}
